@@ -7,6 +7,7 @@ package main
 import (
 	"encoding/json"
 	"fmt"
+	"math/rand"
 	"os"
 	"path/filepath"
 	"strings"
@@ -19,6 +20,63 @@ import (
 type History struct {
 	Shards int          `json:"shards"`
 	Steps  []cfgsm.Step `json:"steps"`
+	// Faults[i] = files made unwritable during the update of step i (classes of lib/cfgsm:
+	// tcpmaps, front:crt, front:host, front:rootredir, front:rootssl, backmaps, tcpcrt, main, shard:<j>)
+	Faults [][]string `json:"faults,omitempty"`
+}
+
+func (h History) faultsOf(i int) []string {
+	if i < len(h.Faults) {
+		return h.Faults[i]
+	}
+	return nil
+}
+
+var allBacks = append(append(append([]string{}, cfgsm.BackPool...), cfgsm.TCPBackPool...), cfgsm.DefaultName)
+var allPorts = []int{7001, 7002}
+
+// withFaults arms faults in some updates of a generated history and inserts, after each of
+// them, the updates that must repair what the failed one left: an empty batch, a batch that
+// re-acquires an unchanged backend (removed and added again: Shrink drops the pair), or just
+// the next changes of the history.
+func withFaults(rng *rand.Rand, h History) History {
+	out := History{Shards: h.Shards}
+	classes := append([]string{}, cfgsm.FaultClasses...)
+	for j := 0; j < h.Shards; j++ {
+		classes = append(classes, fmt.Sprintf("shard:%d", j), fmt.Sprintf("shard:%d", j))
+	}
+	classes = append(classes, "main", "main")
+	for i, st := range h.Steps {
+		out.Steps = append(out.Steps, st)
+		var fl []string
+		if i > 0 && rng.Intn(4) == 0 {
+			fl = []string{classes[rng.Intn(len(classes))]}
+			if rng.Intn(4) == 0 {
+				fl = append(fl, classes[rng.Intn(len(classes))])
+			}
+		}
+		out.Faults = append(out.Faults, fl)
+		if fl == nil {
+			continue
+		}
+		for rep := 1 + rng.Intn(2); rep > 0; rep-- {
+			follow := cfgsm.Step{Full: rng.Intn(6) == 0, State: st.State.Clone()}
+			switch rng.Intn(3) {
+			case 0: // empty batch
+			case 1, 2: // an unchanged backend (or host) is parsed again
+				if ks := cfgsm.SortedKeys(st.State.Backends); len(ks) > 0 {
+					follow.Dirty = append(follow.Dirty, "b:"+ks[rng.Intn(len(ks))])
+				}
+			}
+			var ffl []string
+			if rep > 1 && rng.Intn(3) == 0 {
+				ffl = []string{classes[rng.Intn(len(classes))]}
+			}
+			out.Steps = append(out.Steps, follow)
+			out.Faults = append(out.Faults, ffl)
+		}
+	}
+	return out
 }
 
 type S = cfgsm.State
@@ -65,6 +123,26 @@ func corpus() []History {
 		{Shards: 3, Steps: []cfgsm.Step{
 			st(true, map[string]H{"h0": {Paths: []P{{Path: "/", Backend: "b0", SSLRedirect: true}}}}, oneB, ""),
 			st(false, one, oneB, "")}},
+		// a failed update, then successful ones: the partial sync that removes the only backend of a
+		// shard cannot write the main file; the retry has an empty batch
+		{Shards: 8, Steps: []cfgsm.Step{
+			st(true, map[string]H{"h0": {Paths: []P{{Path: "/", Backend: "b0"}, {Path: "/a", Backend: "b1"}}}}, map[string]B{"b0": {Eps: []int{1}}, "b1": {Eps: []int{2}}}, ""),
+			st(false, one, oneB, ""), st(false, one, oneB, "")},
+			Faults: [][]string{nil, {"main"}, nil}},
+		// ... or the next update parses an unchanged backend again (Shrink drops the pair and recomputes the changed shards)
+		{Shards: 8, Steps: []cfgsm.Step{
+			st(true, map[string]H{"h0": {Paths: []P{{Path: "/", Backend: "b0"}, {Path: "/a", Backend: "b1"}}}}, map[string]B{"b0": {Eps: []int{1}}, "b1": {Eps: []int{2}}}, ""),
+			st(false, one, oneB, ""), st(false, one, oneB, "", "b:b0")},
+			Faults: [][]string{nil, {"main"}, nil}},
+		{Shards: 3, Steps: []cfgsm.Step{
+			st(true, map[string]H{"h0": {Paths: []P{{Path: "/", Backend: "b0"}, {Path: "/a", Backend: "b1"}}}}, map[string]B{"b0": {Eps: []int{1}}, "b1": {Eps: []int{2}}}, ""),
+			st(false, map[string]H{"h0": {Paths: []P{{Path: "/", Backend: "b0"}, {Path: "/a", Backend: "b1"}}}}, map[string]B{"b0": {Eps: []int{1, 2}}, "b1": {Eps: []int{3}}}, ""),
+			st(false, map[string]H{"h0": {Paths: []P{{Path: "/", Backend: "b0"}, {Path: "/a", Backend: "b1"}}}}, map[string]B{"b0": {Eps: []int{1, 2}}, "b1": {Eps: []int{3}}}, "", "b:b1")},
+			Faults: [][]string{nil, {"shard:" + fmt.Sprint(cfgsm.ShardOf(cfgsm.BackendID("b1"), 3))}, nil}},
+		{Shards: 0, Steps: []cfgsm.Step{
+			st(true, map[string]H{"h0": {Paths: []P{{Path: "/", Backend: "b0"}, {Path: "/a", Backend: "b1"}}}}, map[string]B{"b0": {Eps: []int{1}}, "b1": {Eps: []int{2}}}, ""),
+			st(false, one, oneB, ""), st(false, one, oneB, "")},
+			Faults: [][]string{nil, {"front:host"}, nil}},
 		// identical re-creation of an acl backend; revert within one batch
 		{Shards: 3, Steps: []cfgsm.Step{
 			st(true, map[string]H{"h0": {Paths: []P{{Path: "/", Backend: "b0"}, {Path: "/a", Backend: "b0", SSLRedirect: true}}}}, oneB, ""),
@@ -190,6 +268,7 @@ func firstDiff(a, b string) string {
 // ---------------------------------------------------------------- run
 
 type runResult struct {
+	Failed   int
 	Obs      []stepObs
 	FailStep int
 	Key      string
@@ -200,23 +279,34 @@ func runHistory(base string, h History, withFresh bool) runResult {
 	curShards = h.Shards
 	e := cfgsm.NewEnv(base, "a", cfgsm.Options{Shards: h.Shards})
 	r := runResult{FailStep: -1}
+	failedBefore := "" // fault of a failed update not yet followed by a successful one
 	for i, step := range h.Steps {
 		step.State.Normalize(false)
 		h.Steps[i] = step
 		ops := e.Sync(step)
 		q := e.Queue.Adds
+		faults := h.faultsOf(i)
+		unblock := e.Block(faults, allBacks, allPorts)
 		e.Stamp()
 		err := e.Update()
+		unblock()
 		o := stepObs{Ops: ops, Written: e.Written(), Disk: e.ReadDisk(), Reload: e.Queue.Adds > q}
 		if err != nil {
 			o.Err = err.Error()
 		}
 		r.Obs = append(r.Obs, o)
-		if withFresh && r.FailStep < 0 {
-			if err != nil {
+		if err != nil {
+			r.Failed++
+			if len(faults) == 0 && r.FailStep < 0 {
 				r.FailStep, r.Key, r.What = i, "update-error", "fault-free update failed: "+err.Error()
-				continue
 			}
+			if failedBefore == "" && len(faults) > 0 {
+				failedBefore = faults[0]
+			}
+			continue
+		}
+		// the property is about every successful update, the one that follows a failed one included
+		if withFresh && r.FailStep < 0 {
 			f := cfgsm.NewEnv(base, "f", cfgsm.Options{Shards: h.Shards})
 			f.Interner = e.Interner
 			f.Sync(cfgsm.Step{Full: true, State: step.State})
@@ -224,9 +314,15 @@ func runHistory(base string, h History, withFresh bool) runResult {
 				panic(ferr)
 			}
 			if k, what := oracle(step, o, f.ReadDisk()); k != "" {
-				r.FailStep, r.Key, r.What = i, k, fmt.Sprintf("step %d (%s): %s", i, map[bool]string{true: "full sync", false: "partial sync"}[step.Full], what)
+				where := fmt.Sprintf("step %d (%s)", i, map[bool]string{true: "full sync", false: "partial sync"}[step.Full])
+				if failedBefore != "" {
+					k += "-after-failed-update"
+					where += fmt.Sprintf(", first successful update after a failed one (unwritable %s)", failedBefore)
+				}
+				r.FailStep, r.Key, r.What = i, k, where+": "+what
 			}
 		}
+		failedBefore = ""
 	}
 	return r
 }
@@ -234,7 +330,7 @@ func runHistory(base string, h History, withFresh bool) runResult {
 func main() {
 	o := hx.Parse()
 	rng := o.Rng()
-	res := hx.NewResult("C05", "histories of 3..8 (search: ..14) full/partial syncs + updates on the real Instance, shard counts 0/1/3/8, pools of 5 hosts, 10 backends, 3 paths, 3 tcp services; non-trivial = at least 3 steps of which one partial step changes something; distinct by canonical JSON of the history")
+	res := hx.NewResult("C05", "histories of 3..8 (search: ..14) full/partial syncs + updates on the real Instance (a third of the histories with updates made to fail by an unwritable map / crt-list / main / shard file, each followed by updates with an empty batch or parsing an unchanged backend again), shard counts 0/1/3/8, pools of 5 hosts, 10 backends, 3 paths, 3 tcp services; non-trivial = at least 3 steps of which one partial step changes something; distinct by canonical JSON of the history")
 	base, _ := filepath.Abs(filepath.Join(o.Out, "scratch"))
 	var inputs []History
 	if o.Replay != "" {
@@ -249,7 +345,11 @@ func main() {
 		}
 		for i := 0; i < n; i++ {
 			sh, steps := cfgsm.Gen(rng, o.Search)
-			inputs = append(inputs, History{Shards: sh, Steps: steps})
+			h := History{Shards: sh, Steps: steps}
+			if i%3 == 0 {
+				h = withFaults(rng, h)
+			}
+			inputs = append(inputs, h)
 		}
 	}
 	cw := newCaseWriter(o, res)
@@ -273,7 +373,8 @@ func main() {
 		res.Seen(string(b), len(h.Steps) >= 3 && partialChange)
 		res.Count(fmt.Sprintf("shards=%d", h.Shards))
 		res.Count(fmt.Sprintf("steps=%d", len(h.Steps)))
-		res.OracleChecks += len(h.Steps)
+		res.Count(fmt.Sprintf("failed_updates=%d", r.Failed))
+		res.OracleChecks += len(h.Steps) - r.Failed
 		last := r.Obs[len(r.Obs)-1]
 		var files []string
 		for _, f := range last.Disk.Files {
